@@ -37,7 +37,8 @@ Definition Sealed (w : world) : Prop :=
   (forall i n, ~ P i -> w_nodes w i = Some n -> GoodN n) /\
   (forall m x, ~ PM m -> nth_opt (w_models w) (N.to_nat m) = Some x -> GoodM x) /\
   (forall m, PM m -> exists x, nth_opt (w_models w) (N.to_nat m) = Some x) /\
-  (forall f, PF f -> exists fl, nth_opt (w_files w) (N.to_nat f) = Some fl).
+  (forall f, PF f -> exists fl, nth_opt (w_files w) (N.to_nat f) = Some fl) /\
+  (forall f fl, ~ PF f -> nth_opt (w_files w) (N.to_nat f) = Some fl -> ~ PM (f_model fl)).
 
 Definition FileSame (w w' : world) : Prop :=
   forall f, PF f -> nth_opt (w_files w') (N.to_nat f) = nth_opt (w_files w) (N.to_nat f).
@@ -218,6 +219,42 @@ Proof.
   intros Hm Hf w r w' S E. apply modify_model_inv in E as (x & Hx & _ & ->).
   split; [|split; [apply Same_wmodels; auto|auto]]. apply Sealed_wmodels; auto. apply Hf.
   exact (proj1 (proj2 (proj2 S)) m x Hm Hx).
+Qed.
+
+(* ------------------------------------------------------------------ file records *)
+Lemma get_file_inv f w r w' : get_file f w = Val (r, w') -> exists fl, nth_opt (w_files w) (N.to_nat f) = Some fl /\ r = OK fl /\ w' = w.
+Proof. unfold get_file. destruct (nth_opt (w_files w) (N.to_nat f)) as [fl|]; [|discriminate]. intros [= <- <-]. eauto. Qed.
+Lemma irpq_get_file {C} (Q : C -> Prop) f (k : file -> W C) :
+  ~ PF f -> (forall fl, ~ PM (f_model fl) -> irpq Q (k fl)) -> irpq Q (wbind (get_file f) k).
+Proof.
+  intros Hf Hk w r w' S E. apply wbind_inv in E as [(x & w1 & E1 & E2) | (e & E1 & _)].
+  - apply get_file_inv in E1 as (fl & Hfl & [= <-] & ->). eapply (Hk x); eauto.
+    exact (proj2 (proj2 (proj2 (proj2 (proj2 S)))) f x Hf Hfl).
+  - apply get_file_inv in E1 as (fl & _ & [=] & _).
+Qed.
+Lemma irpq_get_file_any {C} (Q : C -> Prop) f (k : file -> W C) :
+  (forall fl, irpq Q (k fl)) -> irpq Q (wbind (get_file f) k).
+Proof.
+  intros Hk w r w' S E. apply wbind_inv in E as [(x & w1 & E1 & E2) | (e & E1 & _)].
+  - apply get_file_inv in E1 as (fl & Hfl & [= <-] & ->). eapply (Hk x); eauto.
+  - apply get_file_inv in E1 as (fl & _ & [=] & _).
+Qed.
+Lemma irp_set_file f x : ~ PF f -> ~ PM (f_model x) -> irp (set_file f x).
+Proof.
+  intros Hf Hx w r w' S E. unfold set_file in E. injection E as <- <-.
+  destruct S as (S1 & S2 & S3 & S4 & S5 & S6).
+  assert (Hold : forall g, g <> f -> nth_opt (list_set (w_files w) (N.to_nat f) x) (N.to_nat g) = nth_opt (w_files w) (N.to_nat g)).
+  { intros g Hg. rewrite !nth_opt_nth_error. apply list_set_nth_neq. apply to_nat_neq. exact Hg. }
+  split; [|split; [|auto]].
+  - split; [exact S1|]. split; [exact S2|]. split; [exact S3|]. split; [exact S4|]. split.
+    + intros g Hg. destruct (S5 g Hg) as (fl & Hfl). exists fl. cbn [w_files]. rewrite Hold; [exact Hfl|]. intros ->. auto.
+    + intros g fl Hg Hfl. cbn [w_files] in Hfl. destruct (N.eq_dec g f) as [->|Hne].
+      * destruct (nth_opt (w_files w) (N.to_nat f)) as [y|] eqn:Ey.
+        -- rewrite nth_opt_nth_error in Hfl, Ey. rewrite (list_set_nth_eq _ _ _ _ Ey) in Hfl. injection Hfl as <-. exact Hx.
+        -- rewrite nth_opt_nth_error in Ey. rewrite nth_opt_nth_error, (list_set_none _ _ _ Ey), <- nth_opt_nth_error in Hfl.
+           rewrite <- nth_opt_nth_error in Ey. congruence.
+      * rewrite Hold in Hfl by exact Hne. eapply S6; eauto.
+  - split; [reflexivity|]. split; [reflexivity|]. intros g Hg. cbn [w_files]. apply Hold. intros ->. auto.
 Qed.
 
 (* ------------------------------------------------------------------ lists of ids that are outside P *)
